@@ -32,6 +32,7 @@ type Ctx struct {
 	fnName    string
 	tyTags    map[string]int
 	pre       map[string]string // components discovered by the dry run (name -> sort)
+	sortDecls []string          // sort and datatype declarations (emitted first in every query)
 }
 
 type Obligation struct {
@@ -71,13 +72,11 @@ func (c *Ctx) assert(t Term) {
 }
 
 func (c *Ctx) prelude() {
-	c.emit("(declare-sort Ref 0)")
-	c.emit("(declare-sort Str 0)")
-	c.emit("(declare-sort Iface 0)")
+	c.sortDecls = append(c.sortDecls, "(declare-sort Ref 0)", "(declare-sort Str 0)", "(declare-sort Iface 0)",
+		"(declare-datatypes ((Slice 0)) (((mk_slice (sref Ref) (soff Int) (slen Int) (scap Int)))))",
+		"(declare-datatypes ((Unit 0)) (((unit))))")
 	c.emit("(declare-const null Ref)")
 	c.emit("(declare-const nilI Iface)")
-	c.emit("(declare-datatypes ((Slice 0)) (((mk_slice (sref Ref) (soff Int) (slen Int) (scap Int)))))")
-	c.emit("(declare-datatypes ((Unit 0)) (((unit))))")
 	c.emit("(declare-fun strlen (Str) Int)")
 	c.emit("(assert (forall ((s Str)) (! (>= (strlen s) 0) :pattern ((strlen s)))))")
 	c.emit("(declare-const str_empty Str)")
@@ -210,7 +209,7 @@ func (c *Ctx) structSort(named *types.Named, st *types.Struct) string {
 	c.usedSorts[name] = true
 	c.sortName[key] = name
 	if st.NumFields() == 0 {
-		c.emit(fmt.Sprintf("(declare-datatypes ((%s 0)) (((mk_%s))))", name, name))
+		c.sortDecls = append(c.sortDecls, fmt.Sprintf("(declare-datatypes ((%s 0)) (((mk_%s))))", name, name))
 		return name
 	}
 	var fs []string
@@ -218,7 +217,7 @@ func (c *Ctx) structSort(named *types.Named, st *types.Struct) string {
 		f := st.Field(i)
 		fs = append(fs, fmt.Sprintf("(%s %s)", c.accessor(name, f.Name(), i), c.sortOf(f.Type())))
 	}
-	c.emit(fmt.Sprintf("(declare-datatypes ((%s 0)) (((mk_%s %s))))", name, name, strings.Join(fs, " ")))
+	c.sortDecls = append(c.sortDecls, fmt.Sprintf("(declare-datatypes ((%s 0)) (((mk_%s %s))))", name, name, strings.Join(fs, " ")))
 	return name
 }
 
@@ -289,7 +288,7 @@ func (c *Ctx) zero(t types.Type) Term {
 		}
 		return c.mkStruct(t, fs)
 	case *types.Array:
-		return fmt.Sprintf("((as const %s) %s)", c.sortOf(t), c.zero(u.Elem()))
+		return c.constArray("Int", c.sortOf(u.Elem()), c.zero(u.Elem()))
 	case *types.Tuple:
 		return "unit"
 	}
@@ -589,4 +588,25 @@ func (c *Ctx) unsupported(msg string) {
 		}
 	}
 	c.unsupp = append(c.unsupp, msg)
+}
+
+// constArray returns an array that maps every index to val. Literal values use
+// (as const ...); other values (e.g. null, datatype zero values), which cvc5
+// rejects inside `as const`, use a named constant with a quantified definition.
+func (c *Ctx) constArray(idxSort, elemSort string, val Term) Term {
+	switch val {
+	case "true", "false", "0", "0.0":
+		return "((as const (Array " + idxSort + " " + elemSort + ")) " + val + ")"
+	}
+	name := "zarr_" + sanitize(idxSort+"_"+elemSort+"_"+val)
+	if len(name) > 100 {
+		h := sha1.Sum([]byte(name))
+		name = fmt.Sprintf("zarr_%x", h[:6])
+	}
+	if !c.declared[name] {
+		c.declared[name] = true
+		c.emit(fmt.Sprintf("(declare-const %s (Array %s %s))", name, idxSort, elemSort))
+		c.emit(fmt.Sprintf("(assert (forall ((i %s)) (! (= (select %s i) %s) :pattern ((select %s i)))))", idxSort, name, val, name))
+	}
+	return name
 }
